@@ -191,6 +191,20 @@ def bounded_native(seed=0, n=4):
                             else:
                                 bad.append(case)
                             break
+    # an options object that was used for a fixed-step run before and is reused with adaptive=True must still let the step grow to dt_max
+    try:
+        with tempfile.TemporaryDirectory() as td:
+            o_re = tdgl.SolverOptions(solve_time=0.05, dt_init=1e-3, dt_max=5e-2, adaptive=False, output_file=os.path.join(td, "a.h5"), progress_interval=0)
+            tdgl.solve(dev, o_re)
+            o_re.adaptive, o_re.solve_time, o_re.output_file = True, 1.0, os.path.join(td, "b.h5")
+            sol_re = tdgl.solve(dev, o_re)
+            runs += 1
+            dts = sol_re.dynamics.dt
+            if o_re.dt_max != 5e-2 or dts.max() < 0.9 * 5e-2:
+                bad.append(dict(what="undriven adaptive run with a reused options object: the step does not grow to the requested dt_max", dt_max_requested=5e-2,
+                                dt_max_in_options_afterwards=float(o_re.dt_max), largest_step=float(dts.max())))
+    except Exception as e:  # noqa
+        bad.append(dict(what=f"reused-options run raised {type(e).__name__}: {str(e)[:120]}"))
     logging.disable(logging.NOTSET)
     out = dict(confirmed=bool(bad), kind="bounded", evaluations=runs, failing_new=len(bad), failing_known=len(known), samples=(bad + known)[:3],
                bound=f"{n} random devices x screening on/off at half the explicit-Euler stability limit (must be bit-exact) + 2 runs far above it (known finding), seed {seed}")
